@@ -25,10 +25,13 @@ def lit(name, value):  # literal without indexing, new name, no huffman
 def peer_frames(rng, sids):
     """a list of byte strings (one cn_peer each)"""
     sid = rng.choice(sids + [1, 3, 5, 7, 9, 99, 2, 4, 0]) if sids else rng.choice([1, 3, 0, 2, 99])
-    k = rng.choice(["hdr_cl", "trailers", "trailers_noeos", "data_pad", "data_any", "rst_any", "wu_any", "wu_big", "prio",
+    if os.environ.get("PEER_KINDS"):
+        k = rng.choice(os.environ["PEER_KINDS"].split(","))
+    else:
+      k = rng.choice(["hdr_cl", "trailers", "trailers_noeos", "data_pad", "data_any", "rst_any", "wu_any", "wu_big", "prio",
                     "prio_self", "unknown", "ping_ack", "ping", "settings_ack", "settings_bad", "settings_misc", "goaway",
                     "cont_stray", "hdr_cont", "split", "hdr_big", "wu_zero", "data_empty", "data_small_burst", "hdr_status_bad",
-                    "rst_zero", "hdr_resp", "hdr_info", "goaway_sid", "push"])
+                    "rst_zero", "hdr_resp", "hdr_info", "goaway_sid", "push", "push", "push"])
     if k == "hdr_cl":
         n = rng.choice([b"0", b"5", b"10", b"100", b"x", b"99999999999999999999"])
         st = rng.choice([0x88, 0x89, 0x8b])  # 200, 204, 304
@@ -115,7 +118,21 @@ def peer_frames(rng, sids):
         c = rng.randrange(1, len(f))
         return [f[:c], f[c:]]
     if k == "push":
-        return [wire(5, 4, sid, (2).to_bytes(4, "big") + bytes([0x82, 0x86, 0x84, 0x41, 0x01, 0x61]))]
+        promised = rng.choice([2, 2, 4, 4, 6, 8, 10, 3, 0, 0x7ffffffe])
+        blk = request_block(rng) if rng.random() < 0.5 else bytes([0x82, 0x86, 0x84, 0x41, 0x01, 0x61])
+        out = [wire(5, 4 | rng.choice([0, 0, 8]), sid, (promised).to_bytes(4, "big") + blk)]
+        if out[0][4] & 8:
+            out = [wire(5, 12, sid, bytes([2]) + (promised).to_bytes(4, "big") + blk + b"\0\0")]
+        r = rng.random()
+        if r < 0.3:
+            out.append(wire(1, 4 | rng.choice([0, 1]), promised, bytes([0x88])))
+            if rng.random() < 0.5:
+                out.append(wire(0, rng.choice([0, 1]), promised, b"abc"))
+        elif r < 0.4:
+            out.append(wire(3, 0, promised, (8).to_bytes(4, "big")))
+        elif r < 0.5:
+            out.append(wire(0, 0, promised, b"abc"))
+        return out
     return []
 
 
@@ -398,6 +415,11 @@ def main():
             hist_start = i
             nhist += 1
         if skipping:
+            continue
+        if o.startswith("cn_new") and impl[i].strip() == "panic":
+            # the previous connection was poisoned by a panic of the real code: dropping its handles in
+            # `new_conn` panics again and the harness keeps the OLD connection — nothing to compare
+            skipping = True
             continue
         m = model[i].strip()
         if m == "unmodelled":
